@@ -14,6 +14,7 @@ Abs == INSTANCE WriterAdmissionAbs WITH Others <- Readers \cup Policers, pc <- A
 AbsSpec == Abs!Spec
 AbsIndInv == Abs!IndInv
 AbsSafety == Abs!Safety
+AbsNoCuts == Abs!NoCuts
 (* the abstract statements of the properties are the concrete ones (the Cardinality form
    of MutualExclusion included) *)
 SameProperties ==
